@@ -4,8 +4,12 @@ Deductive: ftp.toSegments(cwd, path) for a path of up to three '/'-separated pie
 directory of up to two plain names: every segment of the result is a plain name -- not '', '.', '..', free of NUL and
 '/' -- so the list it hands to FTPShell._path can only walk downwards; the result never has fewer segments than an
 absolute path starts with (a '..' at the root raises InvalidPath instead of escaping), and an absolute path ignores
-the working directory.  The number of pieces is bounded (stated), their bytes are not.  What FilePath.descendant /
-child then do with plain names is C26's contract.
+the working directory.  The number of pieces is bounded (stated), their bytes are not.
+FTPAnonymousShell._path (inherited by FTPShell; the one place every shell operation turns segments into a path): the
+result is what filesystemRoot.descendant returned for the very list it was given -- one call, no other construction.
+FilePath.descendant, for a list of *any* length (inductive invariant) and arbitrary names: exactly one child() step
+per segment, in order, child() used through its C26 contract (refuses, or returns a path that starts with its
+parent's), so the result is under the receiver or InsecurePath propagates.
 Bounded (contracts/parts/C54_bounded.py): the real shell and the real protocol on a scratch tree.
 """
 from pyvc.api import *
@@ -100,20 +104,137 @@ class ToSegments(Contract):
                  "            if segs:\n                segs.pop()", None)]
 
 
-CONTRACTS = [ToSegments]
+# -- FilePath.descendant and FTPAnonymousShell._path: every segment goes through child() ---------------------------------
+
+
+class GPath:
+    """Model of a FilePath for the two contracts below.  `under`: its path starts with the root's path (what C26 proves
+    of every path child() returns: it starts with the parent's path; 'starts with' is transitive).  child() is used
+    through that contract: for any name whatsoever it either refuses (InsecurePath) or returns a path under its parent."""
+
+    def __init__(self, under, via_child=0):
+        self.under = under
+        self.via_child = via_child  # how many child() steps produced this path from the root
+
+    def child(self, name):
+        from twisted.python import filepath
+        c = ctx()
+        c.ghost["children"] = c.ghost["children"] + 1
+        c.ghost["names"].append(name)
+        if c.decide(core.fresh_bool(c.fresh_name("c54_refused"))):
+            raise filepath.InsecurePath("refused by child()")
+        return GPath(self.under, self.via_child + 1)
+
+    def descendant(self, segments):
+        c = ctx()
+        c.ghost["descendant_calls"].append(segments)
+        if c.decide(core.fresh_bool(c.fresh_name("c54_refused"))):
+            from twisted.python import filepath
+            raise filepath.InsecurePath("refused by child()")
+        tok = GPath(self.under, None)
+        c.ghost["descendant_results"].append(tok)
+        return tok
+
+    # any other way of building a path from the root gives one about which nothing is known
+    path = b"/ghost/root"
+
+    def clonePath(self, path):
+        return GPath(core.fresh_bool(ctx().fresh_name("c54_unknown_containment")), None)
+
+    def preauthChild(self, path):
+        return GPath(core.fresh_bool(ctx().fresh_name("c54_unknown_containment")), None)
+
+
+class Descendant(Contract):
+    """FilePath.descendant(segments), for a list of *any* length (inductive invariant) and arbitrary names: the result
+    was obtained from the receiver by exactly one child() step per segment, in order -- so it is under the receiver
+    whenever child() keeps its own contract (C26) -- or the InsecurePath of the refusing child() propagates."""
+    prop = "C54"
+    module = "twisted.python.filepath"
+    function = "AbstractFilePath.descendant"
+    differential = False
+    replay_decides = False  # child() is used through its contract (may refuse any name): a replay has no such input
+    inputs = dict(segments=ValList())
+    loops = {"AbstractFilePath.descendant#0": LoopSpec(
+        inv=lambda v: band(v.path.under, v.children == v._i, v.path.via_child == v._i),
+        types={"path": lambda nm: GPath(core.fresh_bool(nm + "!under"), core.fresh_int(nm + "!via", lo=0))},
+        ghost=("children",))}
+    trusted = ["FilePath.child used through its contract (C26.Child): refuses or returns a path that starts with its parent's"]
+
+    def setup(self, i):
+        from twisted.python import filepath
+        return dict(fn=filepath.AbstractFilePath.descendant, args=[GPath(True, 0), i.segments],
+                    ghost=dict(children=0, names=[], descendant_calls=[], descendant_results=[]))
+
+    def bounded_inputs(self, tier):
+        return iter(())  # the real FilePath.descendant is exercised by the bounded classes of C26 and C54
+
+    @property
+    def raises(self):
+        from twisted.python import filepath
+        return (filepath.InsecurePath,)
+
+    ensures = dict(
+        result_is_under_the_receiver=lambda S: None if S.exc else S.result.under,
+        one_child_step_per_segment=lambda S: None if S.exc else band(S.ghost["children"] == L(S.i.segments),
+                                                                     S.result.via_child == L(S.i.segments)))
+    canaries = [("            path = path.child(name)", "            path = path.preauthChild(name)", "one_child_step_per_segment")]
+
+
+class ShellPath(Contract):
+    """FTPAnonymousShell._path(segments) (inherited by FTPShell): the path every operation of the shell works on is what
+    filesystemRoot.descendant(segments) returned for the very list it was given -- one call, no other construction."""
+    prop = "C54"
+    module = "twisted.protocols.ftp"
+    function = "FTPAnonymousShell._path"
+    differential = False
+    replay_decides = False
+    inputs = dict(segments=ValList())
+    trusted = ["FilePath.descendant used through its contract (Descendant above)"]
+
+    def setup(self, i):
+        shell = self.make(ftp.FTPAnonymousShell, filesystemRoot=GPath(True, 0))
+        return dict(self=shell, args=[i.segments],
+                    ghost=dict(children=0, names=[], descendant_calls=[], descendant_results=[], segs=i.segments))
+
+    def bounded_inputs(self, tier):
+        return iter(())
+
+    @property
+    def raises(self):
+        from twisted.python import filepath
+        return (filepath.InsecurePath,)
+
+    def _through_descendant(S):
+        calls = S.ghost["descendant_calls"]
+        ok = band(len(calls) == 1, len(calls) == 1 and calls[0] is S.ghost["segs"])
+        if S.exc is not None:
+            return ok
+        return band(ok, len(S.ghost["descendant_results"]) == 1 and S.result is S.ghost["descendant_results"][0])
+
+    ensures = dict(path_obtained_from_descendant_of_the_root=_through_descendant,
+                   result_is_under_the_root=lambda S: None if S.exc else S.result.under)
+    canaries = [("        return self.filesystemRoot.descendant(path)",
+                 "        return self.filesystemRoot.clonePath(path)", "path_obtained_from_descendant_of_the_root")]
+
+
+CONTRACTS = [ToSegments, Descendant, ShellPath]
 BOUNDED = bounded("C54")
 _SCOPE = ('real FTPShell._path(toSegments(cwd, arg)) for every argument of up to 5 tokens (/ .. . a bob2 NUL backslash *) under 8 working-directory histories, and the real FTP protocol (FTPFactory / Portal / FTPRealm) driven with raw command bytes on a scratch tree with prefix-sharing siblings: 10 verbs x 134 arguments x prefix histories, RNFR x RNTO pairs, stateful prefixes, 1500 random sessions; oracles: an audit hook on every filesystem call, byte-identical outside tree, no outside content or names on the wire')
 NOTES = dict(explanation="toSegments proved to produce only plain names (pieces of arbitrary content, bounded count); the shell and the "
                          "protocol bounded: " + _SCOPE,
              not_covered=["more than three pieces per argument (the loop body is the same for every piece; not proved inductively)",
                           "FTPShell's operations and the protocol's command handlers: bounded tier only",
-                          "FilePath.descendant / child on plain names: C26"])
+                          "FilePath.child itself: C26 (used here through its contract)"])
 MANIFEST = dict(
     category="proof",
     text="ftp.toSegments is proved, for arguments of up to three '/'-separated pieces of arbitrary content and a working "
          "directory of up to two plain names, to return only plain names (never '', '.', '..', nothing containing NUL or '/'), "
          "to raise InvalidPath rather than climb above the root, to resolve an absolute argument from the root, and to leave "
-         "the working-directory list unmodified.  With plain names FTPShell._path can only descend (FilePath.child: C26).  The "
+         "the working-directory list unmodified.  FTPAnonymousShell._path (inherited by FTPShell) is proved to return exactly "
+         "what filesystemRoot.descendant returned for the list it was given, and FilePath.descendant is proved, for a list of "
+         "any length (inductive invariant), to take exactly one child() step per segment with child() used through its C26 "
+         "contract, so the path every shell operation works on is under the root or InsecurePath is raised.  The "
          "shell's operations, the protocol and longer arguments are exercised in the bounded tier only: " + _SCOPE + ".",
     note="Trusted: pyvc, SMT solvers, str.split as the inverse of join, the piece-count bound.  Everything else: bounded, never counted as proved.",
     technique="contract-based deductive verification (symbolic execution with the loop unrolled over a bounded number of arbitrary pieces, SMT strings) + bounded exhaustive sessions on a scratch tree",
